@@ -317,6 +317,11 @@ func checkPanicFree(c *Check, p *Program, rule string, fn *ssa.Function, pl *Pan
 				if p.InModule(f) {
 					continue
 				}
+				if f.Object() != nil && isSyncAtomic(f.Object().(*types.Func)) {
+					// total on the address of a variable or field; the one hazard
+					// (a 64-bit word misaligned on 32-bit platforms) is PLATFORM.atomic64
+					continue
+				}
 				if _, ok := externalAllowed[f.String()]; !ok {
 					c.Fail(rule, key("external-call "+f.String()), pos, "call leaves the module to a function whose behaviour on arbitrary input is not on the allow-list")
 				}
